@@ -187,8 +187,37 @@ def c14(pid, tier, replay):
             tl = os.path.join(work, "AuthTrace.tla")
             txt = open(tl).read().replace("ASSUME TableComplete", "")
             open(tl, "w").write(txt)
+        # which secret is "the configured secret" (Secret.tla): every case through the real config.LoadOrCreateConfig
+        copy_specs(work, {"Secret.tla", "RowsSecret.tla", "RowsSecret.cfg"})
+        srows_file = os.path.join(work, "secret_rows.ndjson")
+        p = run([probe, "-test.run", "TestSecretConfig", "-test.count", "1"], env=dict(os.environ, VERIF_ROWS_SECRET=srows_file), timeout=300)
+        if p.returncode != 0 or not os.path.exists(srows_file):
+            raise Infra("secret probe failed:\n" + p.stdout[-3000:])
+        srows = [json.loads(l) for l in open(srows_file)]
+        sviols = []
+        for rnd in range(20):
+            rc, out = tlc(work, "RowsSecret.tla", "RowsSecret.cfg", workers=1, timeout=300)
+            if "No error has been found" in out:
+                break
+            name = tlc_violation(out)
+            if not name:
+                if "Assumption" in out and "is false" in out:
+                    raise Infra("secret table incomplete or a design statement of Secret.tla does not hold:\n" + out[-1500:])
+                raise Infra("TLC row validation (secret) failed:\n" + out[-3000:])
+            line = int(last_alias_state(out).get("line", "1"))
+            lines = open(srows_file).read().splitlines()
+            sviols.append(json.loads(lines[line - 1]))
+            del lines[line - 1]
+            open(srows_file, "w").write("\n".join(lines) + "\n")
+            tl = os.path.join(work, "RowsSecret.tla")
+            txt = "\n".join(x for x in open(tl).read().split("\n") if not x.startswith("ASSUME {"))
+            open(tl, "w").write(txt)
     reported = []
     seen = set()
+    for r in sviols:
+        desc = "formula=C14_ConfiguredSecret cli=%s file=%s source=%s created=%s secretLen=%s" % (r["cli"], r["file"], r["source"], r["created"], r["secretLen"])
+        path = write_replay(pid, len(reported) + 1, {"property": pid, "engine": "auth", "row": r, "desc": desc})
+        reported.append((r, path, desc))
     for r in viols:
         key = (r["route"], r["method"], r["cred"], r["kind"])
         if key in seen:
@@ -204,7 +233,9 @@ def c14(pid, tier, replay):
            "evaluations": len(rows), "distinct_nontrivial": len({(r["route"], r["method"], r["cred"], r["transport"], r["profiling"]) for r in rows}),
            "rule": "one real request per (route, method, credential class, transport, profiling); routes discovered from the chi router",
            "api_routes": ["%s %s" % a for a in api], "rejected_rows": sum(1 for r in rows if r["status"] == 401),
-           "explanation": "TLC explores the request-processing model of Auth.tla (all requests) and validates each recorded row against RowOK"}
+           "secret_cases": len(srows),
+           "explanation": "TLC explores the request-processing model of Auth.tla (all requests) and validates each recorded row against RowOK; "
+                          "Secret.tla: which secret is in force for every combination of command-line secret and config file, through the real loader"}
     write_evidence(pid, tier, "model_checking", cov, time.time() - t0, violations=len(reported),
                    assumptions=["JWT cryptography of the jwtauth / jwx libraries is trusted", "credential classes are enumerated, not all byte strings"])
     from checks import known_match
